@@ -1,5 +1,6 @@
 import Cppcms.Common
 import Cppcms.C08.Gen
+import Cppcms.C07.Gen
 /-!
 # C08 — model of `cppcms::impl::buddy_allocator` (private/buddy_allocator.h)
 
@@ -162,5 +163,11 @@ def Arena.maxFreeChunk (a : Arena) : Nat :=
   match (a.freeBlocks.map (·.2)).foldl max 0 with
   | 0 => 0
   | m => (a.freeBlocks.filter (·.2 == m)).length * (2 ^ m - Gen.alignment)
+
+/-- `process_settings::not_enough_memory()` over the allocator model: `shmem_control::max_available()` is the
+allocator's `max_free_chunk()` (`Gen.maxAvailableIsMaxFreeChunk`, read by the translator), compared with the
+generated fraction of the segment size -/
+def Arena.notEnoughMemory (a : Arena) (segment : Nat) : Bool :=
+  Cppcms.C07.Gen.processNotEnoughMemory a.maxFreeChunk segment
 
 end Cppcms.C08.Buddy
